@@ -99,10 +99,16 @@ func (fm *fileMetric) numPoints() int {
 // fileSpec is one flushed file: metrics in ascending id order.
 type fileSpec struct {
 	Metrics []*fileMetric
+	// Label, when set, replaces the full dump in String (large generated files whose content is
+	// a function of the parameters named in the label).
+	Label string
 }
 
 // String renders the file canonically (used for case identity and failure messages).
 func (f *fileSpec) String() string {
+	if f.Label != "" {
+		return f.Label
+	}
 	var sb strings.Builder
 	for _, m := range f.Metrics {
 		fmt.Fprintf(&sb, "m%d[fields", m.ID)
